@@ -201,6 +201,7 @@ def gen_case(seed, idx):
                 feats["mixed_input_levels"] = True
                 pre = None
     return {"rows": rows, "cuts": cuts, "ext": ext, "depth": depth, "target": tgt, "pre_make": pre,
+            "define_shuffle": rng.choice([0, 0, rng.randint(1, 10 ** 6)]),
             "tsz": rng.choice([24 * 2 / 1e6, 24 * 5 / 1e6, 1]), "write_superruns": rng.random() < 0.5,
             "processor": rng.choice(["single_thread", "threaded_mailbox"]), "features": feats}
 
@@ -218,8 +219,8 @@ def context(case, d, **kw):
 def write_run_docs(st, case):
     now = datetime.datetime(2020, 1, 1, tzinfo=pytz.utc)
     for r, (a, b) in case["ext"].items():
-        st.storage[0].write_run_metadata(r, dict(name=r, start=now + datetime.timedelta(microseconds=a),
-                                                 end=now + datetime.timedelta(microseconds=b), mode="m", source="s"))
+        st.storage[0].write_run_metadata(r, dict(name=r, start=now + datetime.timedelta(milliseconds=a),
+                                                 end=now + datetime.timedelta(milliseconds=b), mode="m", source="s"))
 
 
 def bookkeeping_errors(chunks, case, nlevels):
@@ -277,7 +278,14 @@ def run_case(case):
         st = context(case, d)
         write_run_docs(st, case)
         order = sorted(case["rows"], key=lambda r: case["ext"][r][0])
-        st.define_run("_sup", list(case["rows"]))
+        # the list may be given in any order: define_run sorts the subruns by their start time
+        deforder = list(case["rows"])
+        random.Random(case.get("define_shuffle", 0)).shuffle(deforder) if case.get("define_shuffle") else None
+        st.define_run("_sup", deforder)
+        spec_order = list(st.run_metadata("_sup", projection="sub_run_spec")["sub_run_spec"])
+        cnt["definitions_checked"] = 1
+        if spec_order != order:
+            add("definition-order", f"define_run({deforder}) stored the subruns as {spec_order}, order of run start is {order}")
         try:
             with common.quiet():
                 sub = [context(case, d).get_array(r, tgt, progress_bar=False) for r in order]
